@@ -18,6 +18,11 @@ def main() -> int:
     ap.add_argument('--only', default=None, help='debug: restrict to harnesses whose name contains this')
     args = ap.parse_args()
     prop = args.prop.upper()
+    os.environ['FJV_RUN'] = str(os.getpid())
+    import atexit
+    import shutil
+    root = common.run_root()
+    atexit.register(lambda: shutil.rmtree(root, ignore_errors=True) if os.environ.get('FJV_RUN') == str(os.getpid()) else None)
     common.use_repo()
     try:
         mod = importlib.import_module(f'fjv.checks.{prop.lower()}')
